@@ -43,6 +43,12 @@ def fastTraceK (t : Fast.Table) : List (Fast.Key × List Nat) → List String
     let (t1, o) := Fast.stepK t k f
     s!"{showFastObs o}/{showRec (Fast.lookup t1 k)}/{t1.length}" :: fastTraceK t1 h
 
+def serialTrace (b : List Nat) : List (List Nat) → List String
+  | [] => []
+  | d :: ds =>
+    let (b', pk) := Serial.feed b d
+    s!"{bytesToHex b'}/{";".intercalate (pk.map bytesToHex)}" :: serialTrace b' ds
+
 def allSomeL {α} : List (Option α) → Option (List α)
   | [] => some []
   | none :: _ => none
@@ -83,6 +89,9 @@ def handleBasic (toks : List String) : Option String :=
   | ["wire.dec.yd", h] => do pure (showFrameRes (Wire.decodeYd (bytesToChars (← hexToBytes h))))
   | ["wire.dec.acti", h] => do pure (showFrameRes (Wire.decodeActisense (bytesToChars (← hexToBytes h))))
   | ["wire.dec.basic", h] => do pure (showFrameRes (Wire.decodeBasic (bytesToChars (← hexToBytes h))))
+  | ["serial.trace", reads] => do
+    let rs ← allSomeL ((splitList reads ",").map hexToBytes)
+    pure (",".intercalate (serialTrace [] rs))
   | ["serial.feedall", buf, reads] => do
     let b ← hexToBytes buf
     let rs ← allSomeL ((splitList reads ",").map hexToBytes)
